@@ -133,7 +133,7 @@ class MediaQuery(cssutils.util._NewBase):  # cssutils.util.Base):
                     name='media_type',
                     match=lambda t, v: t == PreDef.types.IDENT
                     and normalize(v) in self.MEDIA_TYPES,
-                    stopIfNoMoreMatch=True,
+                    stopIfNoMoreMatch=self._partof,
                     toStore='media_type',
                 ),
                 Sequence(
